@@ -631,16 +631,7 @@ theorem affInv_handleSupervisorEvt (w : W) (who : Nat) (h : AffInv w) : AffInv (
 theorem affInv_postStop (w : W) (h : AffInv w) : AffInv w.postStop := by
   unfold W.postStop
   simp only
-  refine ⟨h.kp, ?_, ?_⟩
-  · show NodupW (w.pool.map _)
-    unfold NodupW
-    rw [List.map_map]
-    exact h.nodup
-  · intro k
-    show pendCount k (w.pool.map _) ≤ 1
-    have : pendCount k (w.pool.map fun p => { p with mq := [] }) = pendCount k w.pool := by
-      simp [pendCount, List.countP_map, Function.comp_def, WP.hasPendingKey]
-    rw [this]; exact h.aff k
+  exact ⟨h.kp, List.nodup_nil, fun k => by simp [pendCount]⟩
 
 theorem affInv_handleMsg (w : W) (m : FMsg) (h : AffInv w) : AffInv (w.handleMsg m) := by
   cases m with
